@@ -235,6 +235,7 @@ def _build_ref(c1, r1, c2, r2, anchor=''):
 
 
 _re_build_id = regex.compile(r'^[0-9]+$')
+_re_plain_sheet = regex.compile(r'^[^\W\d][\w\.]*$')
 
 
 def _build_sheet_id(sheet='', directory='', filename='', **kw):
@@ -246,8 +247,8 @@ def _build_sheet_id(sheet='', directory='', filename='', **kw):
             if directory and not directory.endswith('/'):
                 directory += '/'
             sheet = "'%s[%s]%s'" % (directory, filename, sheet)
-    elif ' ' in sheet:
-        sheet = "'%s'" % sheet
+    elif sheet and not _re_plain_sheet.match(sheet):
+        sheet = "'%s'" % sheet  # Only a plain name is read back unquoted.
     return sheet
 
 
